@@ -111,9 +111,10 @@ class LookupMapColumn(NoValueColumn):
     """
     try:
       affected_keys = self._mapping.update_record(rec)
-    except objtypes.CellError:
+    except (objtypes.CellError, AttributeError):
       # A key cell that holds an error gives the row no key at all (as when the document is
-      # loaded with the error already there): drop the keys it was indexed under, then report.
+      # loaded with the error already there), and so does a key column that has been removed:
+      # drop the keys the row was indexed under, then report.
       affected_keys = {k for k in self._mapping.remove_row_id(rec._row_id) if k is not None}
       self._relation_tracker.invalidate_affected_keys(affected_keys)
       raise
@@ -146,6 +147,13 @@ class LookupMapColumn(NoValueColumn):
 
   def _do_lookup_with_sort(self, key, sort_spec, sort_key):
     rel = self._relation_tracker.update_relation_from_current_node(key)
+    # A key column may have been removed since this map was created: report it as when the map
+    # is created (Table._get_lookup_map), rather than answer from an index that can't be kept.
+    table = self._relation_tracker._engine.tables[self.table_id]
+    for c in self._mapping._col_ids_tuple:
+      c = extract_column_id(c)
+      if not table.has_column(c):
+        raise table._missing_column_error(c)
     row_id_set = self._do_fast_lookup(key)
     row_ids = row_id_set.sorted_versions.get(sort_spec)
     if row_ids is None:
